@@ -25,9 +25,11 @@ EXTENDS Blend, TLC
 
 CONSTANTS GBits,              \* grid step 2^-GBits, GBits \in {2, 3}
           Ops,                \* the operations enumerated: subset of BlendModes \cup ComposeOps \cup {"premul"}
+          EnumStep,           \* 1: the whole grid; k > 1: every k-th grid value in arguments 2..4 (the -coverage run only)
           AssertPlusRange     \* "colour" / "alpha": also assert that part of the range clause for `plus` (expected
                               \* to fail); "no": the registered configuration
 
+ASSUME EnumStep \in 1..4
 ASSUME GBits \in {2, 3} /\ Ops \subseteq (BlendModes \cup ComposeOps \cup {"premul"}) /\ AssertPlusRange \in {"no", "colour", "alpha"}
 
 G == Pow2Small(GBits)
@@ -47,7 +49,7 @@ Cb == DyMul(cb, ab)
    TLC's workers share the work *)
 MCInit == Init /\ phase = "blk" /\ op \in Ops /\ arg \in {<<k, 0, 0, 0>> : k \in 0..G}
 Enum == /\ phase = "blk"
-        /\ \E x \in [2..4 -> 0..G] : arg' = <<arg[1], x[2], x[3], x[4]>>
+        /\ \E x \in [2..4 -> {k \in 0..G : k % EnumStep = 0}] : arg' = <<arg[1], x[2], x[3], x[4]>>
         /\ phase' = "case" /\ UNCHANGED <<op, last>>
 
 -----------------------------------------------------------------------------
